@@ -177,10 +177,16 @@ fn reader_error(cfg: &RunCfg) -> Outcome {
     // the error may be one-shot: a source that fails once and then reports end of data, or
     // goes on with the rest (an event receiver that rejects one oversized event does that);
     // the encoder must stop at the error either way
+    let mut eintr_resume: Option<usize> = None;
     if gen::ratio(1, 2) {
         r.errors_left = Some(1);
         r.resume_end_at = if gen::ratio(1, 2) { cut } else { total };
         gen::count("fault.reader_error_one_shot");
+        if gen::ratio(1, 4) {
+            // EINTR: giving up and a correct retry (which then sees the rest) are both right
+            r.end = StreamEnd::Error(std::io::ErrorKind::Interrupted);
+            eintr_resume = Some(r.resume_end_at);
+        }
     }
     let mut w = writer_sched();
     let res = match run_encoder(&mut r, &mut w, 10_000_000) {
@@ -188,6 +194,15 @@ fn reader_error(cfg: &RunCfg) -> Outcome {
         Err(o) => return o,
     };
     sim_core::with(|wd| wd.count("fault.reader_error"));
+    if let (Some(upto), CopyResult::Ok(_)) = (eintr_resume, &res) {
+        // the encoder retried the interrupted read: then the output must be the complete
+        // encoding of everything the source went on to deliver
+        let d = decode(&w.out);
+        if !matches!(d.end, ChunkedEnd::Complete { .. }) || d.data != src[..upto] {
+            return Outcome::fail("C07.roundtrip", format!("the encoder carried on after an Interrupted read at piece {k}, returned Ok, but its output ({:?}, {} bytes) is not the encoding of the {upto} bytes the source delivered", d.end, d.data.len()));
+        }
+        return Outcome { nontrivial: true, case_hash: sim_core::tape::mix(k as u64, total as u64), ..Default::default() };
+    }
     if !matches!(res, CopyResult::ReaderErr(_)) {
         return Outcome::fail("C07.reader_error_reported", format!("source failed after piece {k} of {npieces} but the encoder returned {}", outcome_name(&res)));
     }
@@ -243,11 +258,22 @@ fn writer_error(cfg: &RunCfg) -> Outcome {
     .min(full.len());
     let mut r = ScriptReader::new(src, Pieces::List(lens.clone()));
     let mut w = writer_sched();
-    w.fail_at = Some((at, gen::write_error_kind()));
+    // EINTR-like transient fault: giving up (WriterErr + prefix) and a correct retry
+    // (Ok + the whole output) are both right; resending accepted bytes is not
+    w.transient = gen::ratio(1, 8);
+    let kind = if w.transient { std::io::ErrorKind::Interrupted } else { gen::write_error_kind() };
+    w.fail_at = Some((at, kind));
     let res = match run_encoder(&mut r, &mut w, 10_000_000) {
         Ok(r) => r,
         Err(o) => return o,
     };
+    if w.transient {
+        let ok = matches!(res, CopyResult::Ok(_));
+        if w.out.len() > full.len() || w.out[..] != full[..w.out.len()] || (ok && w.out.len() != full.len()) {
+            return Outcome::fail("C07.prefix_on_writer_error", format!("transient (Interrupted) write error at {at}: the encoder returned {} and the accepted bytes are not {} the fault-free output", outcome_name(&res), if ok { "exactly" } else { "a prefix of" }));
+        }
+        return Outcome { nontrivial: at > 0 && at < full.len(), case_hash: sim_core::tape::mix(at as u64, total as u64), ..Default::default() };
+    }
     if at < full.len() {
         if !matches!(res, CopyResult::WriterErr(_)) {
             return Outcome::fail("C07.writer_error_reported", format!("writer failed at offset {at} of {} but the encoder returned {}", full.len(), outcome_name(&res)));
